@@ -2,7 +2,7 @@ ID = 'C16'
 CXX_SOURCES = []
 GROUPS = ['common']
 LIBS = []
-WRAP = ['epoll_wait', 'epoll_ctl']
+WRAP = ['epoll_wait', 'epoll_ctl', 'select']
 
 import importlib.util as _ilu
 import os as _os
@@ -29,7 +29,10 @@ RULE = ('(a) timers: op histories (register single/repeating with interval from 
         'interval; SelectServer-level registration (real SelectServer on a virtual clock, both back-ends) through the '
         'millisecond and the TimeInterval overloads with delays at the 32-bit boundaries of ms*1000 (4294967/4294968 '
         'ms, 2^31/1000, 90 min, 2 h, UINT_MAX ms, small ones), clock advanced to delay-1/delay/delay+1 and to the '
-        'value a wrapping conversion would give.  non-trivial = at least one callback ran and at least one state-changing op (register/cancel) '
+        'value a wrapping conversion would give; scale: 17/33/40/100 timers with equal and staggered deadlines at both '
+        'levels, the value ExecuteTimeouts returns compared as key rv; idle RunOnce(block) with the poller really '
+        'sleeping on the virtual clock (epoll_wait/select interposed: the timeout the poller passes advances the '
+        'clock), sub-millisecond distances to the deadline, early=1 if a callback runs before registration+interval.  non-trivial = at least one callback ran and at least one state-changing op (register/cancel) '
         'happened; distinct = distinct model output line.  (b) pollers: see gen_poller.py RULE.')
 ASSUMPTIONS = ['operator new does not fail',
                'callbacks honour the API contract: CancelTimeout is only called with the id of a timer that is '
@@ -43,7 +46,7 @@ TRUSTED = ['modelled rather than verified: SelectServer::Register{Single,Repeati
            'CancelTimeout, ExecuteTimeouts, Event, SingleEvent::Trigger, RepeatingEvent::Trigger}',
            'harness interposes operator new/delete for objects of sizeof(Event subclass) during Register calls to '
            'choose the address deterministically; virtual time through a Clock subclass']
-SPEC_KEYS = ['tr', 'se', 'ss', 'e0', 'e1', 'e2', 'e3', 's0', 's1', 's2', 's3']
+SPEC_KEYS = ['tr', 'rv', 'se', 'ss', 'early', 'e0', 'e1', 'e2', 'e3', 's0', 's1', 's2', 's3']
 
 
 def _repo_text(rel):
@@ -208,8 +211,54 @@ def _ss_case(rng):
     return 'S ' + ';'.join(ops)
 
 
+def _many_timer_cases(rng):
+    """scale: 17 / 33 / 40 / 100 timers with equal and with staggered deadlines (TimeoutManager level and
+    SelectServer level); the value ExecuteTimeouts returns is compared (key rv)"""
+    for n in (17, 33, 40, 100):
+        iv = rng.choice([1, 5, 10])
+        # equal deadlines, all single-shot
+        yield 'T ' + ';'.join(['r0,%d,0' % iv] * n + ['a%d' % iv, 'x', 'x', 'a1', 'x'])
+        # equal deadlines, a mix, repeating ones keep going
+        regs = ['r%d,%d,0' % (rng.random() < 0.4, iv) for _ in range(n)]
+        sc = '|'.join(rng.choice(['1', '1', '0']) for _ in range(n))
+        yield 'T ' + ';'.join(regs + ['a%d' % iv, 'x' + sc, 'x1|1', 'a%d' % iv, 'x' + sc, 'x'])
+        # staggered deadlines, served in one pass after a big step and in several small ones
+        regs = ['r0,%d,0' % (1 + k % 7) for k in range(n)]
+        yield 'T ' + ';'.join(regs + ['a3', 'x', 'a10', 'x', 'x'])
+        # SelectServer level
+        yield 'S i0,%d,%d;x;a%d;x;x;a1;x' % (iv * 1000, n, iv * 1000)
+        yield 'S m%d,%d,%d;i0,%d,%d;y%d;y%d;x' % (rng.random() < 0.5, iv, n, iv * 1000 + 500, n // 2, iv * 1000, 1000)
+
+
+def _sleep_case(rng):
+    """idle RunOnce(block interval) with the poller sleeping on the virtual clock: sub-millisecond distances to
+    the next deadline (EPoller sleeps whole milliseconds, SelectPoller the exact time)"""
+    ops = []
+    for _ in range(rng.choice([1, 1, 2, 3])):
+        us = rng.choice([900, 999, 1000, 1001, 1500, 1999, 2000, 2500, 10400, 999999, 1000001, rng.randrange(1, 30000)])
+        rep = rng.random() < 0.3
+        if us % 1000 == 0 and rng.random() < 0.5:
+            ops.append('m%d,%d' % (rep, us // 1000))
+        else:
+            ops.append('i%d,%d' % (rep, us))
+    for _ in range(rng.choice([2, 3, 5, 8])):
+        k = rng.random()
+        if k < 0.7:
+            ops.append('y%d' % rng.choice([0, 500, 1000, 1500, 2000, 5000, 20000, 2000000]))
+        elif k < 0.85:
+            ops.append('a%d' % rng.choice([1, 100, 499, 500, 999, 1000]))
+        else:
+            ops.append('x')
+    return 'S ' + ';'.join(ops)
+
+
 def gen_cases(rng, tier):
     quick = tier == 'quick'
+    for _ in range(1 if quick else 20):
+        for c in _many_timer_cases(rng):
+            yield c
+    for _ in range(300 if quick else 20000):
+        yield _sleep_case(rng)
     for _ in range(400 if quick else 20000):
         yield _ss_case(rng)
     for _ in range(60 if quick else 1500):
